@@ -219,6 +219,10 @@ func errdropBestEffort(name string) bool {
 	if strings.HasPrefix(name, "fmt.") || strings.HasPrefix(name, "log.") || strings.HasPrefix(name, "(*log.Logger)") {
 		return true
 	}
+	// in-memory writers: documented never to fail
+	if strings.HasPrefix(name, "(*strings.Builder).") || strings.HasPrefix(name, "(*bytes.Buffer).Write") {
+		return true
+	}
 	for _, suf := range []string{").Close", ").SetDeadline", ").SetReadDeadline", ").SetWriteDeadline"} {
 		if strings.HasSuffix(name, suf) {
 			return true
